@@ -647,7 +647,7 @@ class Env:
             if script[0] == "oserror":
                 rec["outcome"] = "oserror"
                 raise OSError(113, "No route to host")
-            peer = addr_infos[0][4]
+            peer = addr_infos[min(getattr(self, "tcp_land", 0), len(addr_infos) - 1)][4]  # which candidate answered
             sock = FakeSocket(self, (peer[0], peer[1]))
             rec["outcome"] = "ok"
             rec["sock"] = sock.idx
